@@ -50,20 +50,20 @@ let of_outcome = function
   | M.Regenerated -> Atom "regenerated" | M.NoProject -> Atom "no-project" | M.BuildOk -> Atom "build-ok"
 
 let () =
-  (* (fs (run ...)) -> ((kf1 kf2 outcome fs-after) ...) *)
+  (* (fs (run ...)) -> ((outcome fs-after) ...) *)
   Registry.register "history" (fun s ->
     match list s with
     | [f; runs] ->
         let steps = M.c16_steps (fs_ f) (list_ run_ runs) in
-        of_list (fun ((k1, k2), (o, f')) -> List [of_bool k1; of_bool k2; of_outcome o; of_fs f']) steps
+        of_list (fun (o, f') -> List [of_outcome o; of_fs f']) steps
     | _ -> failwith "c16-history: bad case");
-  (* (out proj (tgt)? (changed ...) (new_dirs ...) (gone_dirs ...)) -> (ok ((offending class) ...)) *)
+  (* (out proj (tgt)? (changed ...) (new_dirs ...) (gone_dirs ...)) -> (ok (offending ...)) *)
   Registry.register "oracle" (fun s ->
     match list s with
     | [out; proj; tgt; ch; nd; gd] ->
         let out = path_ out and proj = path_ proj and tgt = opt_ path_ tgt and ch = list_ path_ ch in
         List [of_bool (M.c16_ok out proj tgt ch (list_ path_ nd) (list_ path_ gd));
-              of_list (of_pair of_path of_nat) (M.c16_bad out proj tgt ch)]
+              of_list of_path (M.c16_bad out proj tgt ch)]
     | _ -> failwith "c16-oracle: bad case");
   (* (name (managed ...)) -> (reserved is_generated) *)
   Registry.register "names" (fun s ->
